@@ -4,6 +4,8 @@ import MosnVerif.Lemmas.Match
 import MosnVerif.Lemmas.FrameH2
 import MosnVerif.Lemmas.ReadLoop
 import MosnVerif.Model.ReadLoopSpec
+import MosnVerif.Lemmas.DispatchCtx
+import MosnVerif.Model.DispatchCtxSpec
 /-!
 # C07 — message extraction is independent of how TCP segments the byte stream (property theorems only)
 
@@ -326,5 +328,67 @@ example : (toConn (ReadLoop.run (Params.actual 64) (dispatchConsumer frameStep_b
 example : (toConn (ReadLoop.run (mutant 64) (dispatchConsumer frameStep_bolt) ([], false)
     [.read (boltReq ++ boltReq.take 29), .read (boltReq.drop 29 ++ boltReq.take 20), .timeout, .read (boltReq.drop 20)])).out
     = [boltReq, boltReq] := by decide
+
+/-! ## nothing is attributed to a neighbouring frame: the context of a frame (`streamConn.Dispatch`, Model/DispatchCtx.lean)
+
+Above, a frame is its bytes.  A delivered request is more: the receiver keeps the decoded frame, the server stream and
+the stream-level context and reads them after `Dispatch` has gone on to the next frame of the same read.  A chunking is
+now the list of `Dispatch` calls with the frames each read completes; `genShape` is the call structure of the loop
+regenerated from conn.go on this run. -/
+section DispatchContext
+open MosnVerif.Model.DispatchCtx
+
+theorem dispatch_one_context_per_frame : DispatchCtx.genShape.perFrame := by decide
+
+/-- **each frame exactly once** (whatever the loop does with contexts): the receivers are created for exactly the
+request / one-way frames, the acknowledgements written for exactly the heartbeats, each once, in stream order. -/
+theorem frames_handled_exactly_once (sh : Shape) (pf : Bool) (calls : List (List Frame)) :
+    (DispatchCtx.run sh pf calls).delivered.map (·.frame) = calls.flatten.filter (·.kind.delivers) ∧
+    (DispatchCtx.run sh pf calls).acks = (calls.flatten.filter (·.kind = .heartbeat)).map (·.id) :=
+  run_delivered sh pf calls
+
+/-- **delivered_chunking_independent**: what the receivers find in the frames, streams and contexts they kept does not
+depend on how the frames were spread over reads (one frame per read, all in one read, anything between) — it is the
+list of their own frames; nothing of a neighbouring frame. -/
+theorem delivered_chunking_independent (pf : Bool) (c1 c2 : List (List Frame)) (h : c1.flatten = c2.flatten) :
+    views DispatchCtx.genShape pf (DispatchCtx.run DispatchCtx.genShape pf c1) =
+      views DispatchCtx.genShape pf (DispatchCtx.run DispatchCtx.genShape pf c2) ∧
+    views DispatchCtx.genShape pf (DispatchCtx.run DispatchCtx.genShape pf c1) = (c1.flatten.filter (·.kind.delivers)).map own := by
+  rw [views_eq dispatch_one_context_per_frame pf c1, views_eq dispatch_one_context_per_frame pf c2, h]
+  exact ⟨rfl, rfl⟩
+
+/-- one context per decoded frame, none held by two receivers -/
+theorem context_per_frame (pf : Bool) (calls : List (List Frame)) :
+    Isolated DispatchCtx.genShape pf (DispatchCtx.run DispatchCtx.genShape pf calls) :=
+  isolated_of_inv (inv_run dispatch_one_context_per_frame pf calls)
+
+/-- the executable predicate of the `ctx` cases holds of the model's output -/
+theorem spec_ctx_holds_on_model (pf : Bool) (calls : List (List Frame)) :
+    specCtx calls.flatten (runA DispatchCtx.genShape pf DispatchCtx.init [] calls).2
+      (views DispatchCtx.genShape pf (runA DispatchCtx.genShape pf DispatchCtx.init [] calls).1)
+      (deliveredClasses (runA DispatchCtx.genShape pf DispatchCtx.init [] calls).1)
+      (runA DispatchCtx.genShape pf DispatchCtx.init [] calls).1.acks = true := by
+  have hA := runA_eq dispatch_one_context_per_frame pf calls DispatchCtx.init [] (inv_init _ _) (by simp [DispatchCtx.init])
+  have hr : List.foldl (dispatch DispatchCtx.genShape pf) DispatchCtx.init calls = DispatchCtx.run DispatchCtx.genShape pf calls := rfl
+  rw [hA.1, hA.2, hr]
+  have hi := inv_run dispatch_one_context_per_frame pf calls
+  have hd := run_delivered DispatchCtx.genShape pf calls
+  have hown : expect = own := rfl
+  have hlen : (deliveredClasses (DispatchCtx.run DispatchCtx.genShape pf calls)).length = (calls.flatten.filter (·.kind.delivers)).length := by
+    rw [← hd.1]; simp [deliveredClasses]
+  simp only [specCtx, views_of_inv hi, hd.1, hd.2, hown, hlen, List.length_map, beq_self_eq_true, Bool.true_and,
+    Bool.and_true, decide_eq_true_eq]
+  exact classes_nodup hi
+
+/-! ### non-vacuity; the hoisted `Get` depends on the chunking -/
+def cq1 : Frame := ⟨.request, 1, 101, 201⟩
+def cq2 : Frame := ⟨.request, 2, 102, 202⟩
+def cq3 : Frame := ⟨.request, 3, 103, 203⟩
+example : views DispatchCtx.genShape true (DispatchCtx.run DispatchCtx.genShape true [[cq1, cq2, cq3]]) = [own cq1, own cq2, own cq3] := by decide
+example : views hoistedShape true (DispatchCtx.run hoistedShape true [[cq1], [cq2], [cq3]]) = [own cq1, own cq2, own cq3] := by decide
+example : views hoistedShape true (DispatchCtx.run hoistedShape true [[cq1, cq2], [cq3]]) = [own cq2, own cq2, own cq3] := by decide
+example : views hoistedShape true (DispatchCtx.run hoistedShape true [[cq1, cq2, cq3]]) = [own cq3, own cq3, own cq3] := by decide
+
+end DispatchContext
 
 end MosnVerif.Props.C07
